@@ -26,6 +26,7 @@ LEVEL_TEXT = ("about 40 (quick) / 700 (thorough) real external runs: trace equal
               "max_functions, NaN failures and user aborts; child killed after each possible number of exchanged messages; evaluator raising at each evaluation; no child left alive")
 LEVEL_NOTE = "trusted: SHA-256 trace digests, /proc, the message counter wrapped around the parent's pipe communicator; a wall-clock watchdog (90 s) only yields 'inconclusive'"
 ANCHOR_FILES = ["src/ropt/plugins/optimizer/external.py", "src/ropt/optimization/_optimizer.py"]
+EXECUTION_COUNTERS = ["external_runs"]   # executions of the oracle inside the cases (reported as coverage.evaluations)
 RULE = ("case = one configuration (differential) or one (configuration, crash point); non-trivial if a real child process was started and exchanged at least one message; distinct key = case; "
         "monitor_counters: external runs, messages, kill points, children seen in /proc")
 ASSUMPTIONS = ["Linux /proc", "the harness puts /venv/bin on PATH so that the plug-in runner script is found", "population methods get an explicit seed option"]
